@@ -369,6 +369,8 @@ def run_scenario(scen, chooser_factory, max_steps=4000, observe=True):
                     out = "noexec"
                 else:
                     ex.shutdown(wait=op[1], kill_workers=op[2])
+            elif kind == "idle":
+                pass
             elif kind == "setpickler":
                 PE.set_loky_pickler(op[1])
             elif kind == "drop":
@@ -508,6 +510,63 @@ def random_chooser(seed, p_timeout=0.15, p_crash=0.0, max_crashes=1, p_sleep=0.3
                 if rest and (not sl or rnd.random() > p_sleep):
                     return rnd.choice(rest)
                 return rnd.choice(normal)
+            return None
+        return choose
+    return factory
+
+
+def pct_chooser(seed, depth=3, p_timeout=0.15, p_crash=0.0, horizon=260):
+    """priority-based scheduling (PCT): every actor gets a random priority when it first appears; the
+    highest-priority enabled actor always runs; at depth-1 random step indices the running actor is
+    demoted below everybody.  Finds orderings that uniform random choice almost never produces
+    (one actor racing far ahead of another)."""
+    def factory(eng):
+        rnd = random.Random(f"pct/{seed}")
+        prio = {}
+        low = [0.0]
+        change = {rnd.randrange(horizon) for _ in range(max(0, depth - 1))}
+        crash_at = rnd.randrange(horizon) if rnd.random() < p_crash else None
+        st = {"n": 0, "crashed": False}
+
+        def pr(a):
+            if a not in prio:
+                prio[a] = rnd.random() + 1.0
+            return prio[a]
+
+        fair = random_chooser(seed, p_timeout=min(p_timeout, 0.1), p_crash=0.0)(eng)
+
+        def choose(e, choices):
+            st["n"] += 1
+            cs = sorted(choices)
+            if st["n"] > 2 * horizon:
+                return fair(e, choices)          # unfair priorities only for a bounded prefix
+            if crash_at is not None and not st["crashed"] and st["n"] >= crash_at:
+                cr = [c for c in cs if c[1] == "crash"]
+                if cr:
+                    st["crashed"] = True
+                    return rnd.choice(cr)
+            by_actor = {}
+            for a, v in cs:
+                if v != "crash":
+                    by_actor.setdefault(a, []).append(v)
+            order = sorted(by_actor, key=lambda a: -pr(a))
+            for a in order:
+                vs = by_actor[a]
+                normal = [v for v in vs if v in ("ok", "fail")]
+                if normal:
+                    pick = (a, normal[0])
+                elif "timeout" in vs and rnd.random() < max(p_timeout, 0.05):
+                    pick = (a, "timeout")
+                else:
+                    continue
+                if st["n"] in change:
+                    low[0] -= 1.0
+                    prio[a] = low[0]
+                return pick
+            # only time-out variants left and none was drawn: fire the first one (time passes)
+            for a in order:
+                if "timeout" in by_actor[a]:
+                    return (a, "timeout")
             return None
         return choose
     return factory
